@@ -19,8 +19,13 @@ PartKinds == {[Kind(<<97>>, n, FALSE) EXCEPT !.mtime = <<>>, !.uid = <<49, 48, 4
              \cup {[Kind(<<97>>, n, FALSE) EXCEPT !.uid = <<>>, !.gid = <<49, 48, 48>>] : n \in {0, 1}}
              \cup {[Kind(<<97>>, n, FALSE) EXCEPT !.gid = <<>>] : n \in {0, 1}}
              \cup {[Kind(<<97>>, n, FALSE) EXCEPT !.mtime = <<>>, !.gid = <<>>, !.uid = <<55>>] : n \in {0, 1}}
-Kinds == {Kind(nm, n, b) : nm \in Names, n \in Sizes, b \in BOOLEAN} \cup {BigKind(nm, n) : nm \in {<<97>>, DB}, n \in {0, 1}} \cup PartKinds
-Models == UNION {[1..k -> Kinds] : k \in 0..MaxMembers}
+\* numeric columns written zero-filled (decimal numbers all the same: 0012 is twelve, 0089 is eighty-nine)
+ZeroKinds == {[name |-> <<97>>, mtime |-> <<48, 48, 49, 51, 54, 49, 49, 53, 55, 52, 54, 54>>, uid |-> <<48, 48, 48, 53, 48, 49>>, gid |-> g,
+               mode |-> <<49, 48, 48, 54, 52, 52>>, data |-> Data(n), blank |-> FALSE, zfill |-> z] :
+                 g \in {<<48, 48, 48, 48, 50, 48>>, <<48, 48, 48, 48, 56, 57>>}, n \in {0, 1, 12, 18}, z \in BOOLEAN}
+Kinds == ZeroKinds \cup {Kind(nm, n, b) : nm \in Names, n \in Sizes, b \in BOOLEAN} \cup {BigKind(nm, n) : nm \in {<<97>>, DB}, n \in {0, 1}} \cup PartKinds
+\* (TLC evaluates constant definitions when it starts, used or not: each mode's sets are empty in the other mode)
+Models == IF Mode = "wellformed" THEN UNION {[1..k -> Kinds] : k \in 0..MaxMembers} ELSE {}
 FitsGnu(ms) == \A k \in 1..Len(ms) : Len(ms[k].name) <= 15
 
 \* via: the io.ReaderAt handed to LoadAr - the archive's own bytes, or a section of a larger buffer in which other bytes
@@ -33,7 +38,7 @@ WellFormed == UNION {{[k |-> "ar", members |-> ms, gnu |-> g, bytes |-> RenderAr
 
 \* ---- corruptions ----------------------------------------------------------
 SmallKinds == {Kind(nm, n, FALSE) : nm \in {<<97>>, DB}, n \in Sizes}
-Bases == UNION {[1..k -> SmallKinds] : k \in 0..MaxMembers}
+Bases == IF Mode = "corrupt" THEN UNION {[1..k -> SmallKinds] : k \in 0..MaxMembers} ELSE {}
 Hostile == {<<45, 49>>, <<45, 54, 48>>, <<45, 54, 49>>, <<45, 54, 50>>, <<57, 57, 57, 57, 57, 57, 57, 57, 57, 57>>, <<>>,
             <<49, 50, 120>>, <<43, 53>>, <<54, 48>>, <<45, 48>>}    \* -1 -60 -61 -62 9999999999 blank 12x +5 60 -0
 Cols == {ColName, ColMtime, ColUid, ColGid, ColMode, ColSize}
